@@ -1564,6 +1564,7 @@ where
     let mut open_doc = allocator.nil();
     let mut close_doc = allocator.nil();
     let mut found_open = false;
+    let mut saw_comma = false;
 
     for &child in children.iter() {
         let node = ctx.arena.get(child);
@@ -1581,6 +1582,7 @@ where
                 }
                 TokenKind::Comma => {
                     // Skip commas - we'll add them with proper breaking
+                    saw_comma = true;
                     if let Some(item) = current.take() {
                         items.push(item);
                     }
@@ -1607,7 +1609,14 @@ where
     } else {
         // Use softline between items (after comma), but not after opening delimiter
         // This prioritizes breaking at binary operators over breaking at function call boundaries
+        // The comma of a one-element list is what makes it a tuple: `(x,)` is not `(x)`
+        let lone_comma = saw_comma && items.len() == 1;
         let items_doc = allocator.intersperse(items, breakable_comma(allocator));
+        let items_doc = if lone_comma {
+            items_doc.append(allocator.text(","))
+        } else {
+            items_doc
+        };
         // Wrap in group for proper line breaking
         open_doc
             .append(items_doc.nest(get_indent_size() as isize))
